@@ -284,7 +284,7 @@ def correspondence(ctx):
     U.BIG_BINS = ctx.thorough
     _indexed_tie(ctx, out, rng)
     if ctx.thorough:
-        plan = _model_plan(ctx, rng, 500, 40, 20, 10)
+        plan = _model_plan(ctx, rng, 800, 100, 40, 20)
     else:
         plan = _model_plan(ctx, rng, 40, 3, 2, 1)
     specs = []
